@@ -74,6 +74,22 @@ def confirm(sd):
         shutil.rmtree(d, ignore_errors=True)
 
 
+def suite(sd):
+    """apply patch.diff to a scratch copy and run the whole test suite"""
+    sd = os.path.abspath(sd)
+    d = scratch('suite-' + sd.strip('/').replace('/', '_'))
+    try:
+        rc, out = sh('git apply --whitespace=nowarn %s/patch.diff' % sd, d)
+        if rc:
+            return 'patch does not apply: ' + out[-300:]
+        rc, out = sh('cargo test --workspace --no-fail-fast --offline 2>&1 | tail -40', d)
+        passed = sum(int(l.split('ok.')[1].split('passed')[0]) for l in out.splitlines() if l.startswith('test result: ok.'))
+        failed = 'FAILED' in out or 'error' in out and 'test result' not in out
+        return 'pass (%d tests incl. doc tests)' % passed if not failed and passed >= 52 else 'FAIL: ' + out[-800:]
+    finally:
+        shutil.rmtree(d, ignore_errors=True)
+
+
 def detect(sd, pids):
     sd = os.path.abspath(sd)
     name = 'detect-' + sd.strip('/').replace('/', '_')
